@@ -9,7 +9,8 @@ ID = 'C15'
 LEVEL = 'proof'
 TIE = {'core.AllowOverhang / LevelOverhang / AdjustedSeatCount': 'correspondence',
        'proportional.HighestAverages / LargestRemainder (inner evaluators)': 'models of C01 / C02',
-       'core.LevelOverhangByConstituency, MultistageDistributor wrapping': 'implementation-side clauses only'}
+       'core.LevelOverhangByConstituency.calculate, core.ByConstituency.evaluate, AdjustedSeatCount + ByParty in a depth-2 '
+       'MultistageDistributor (DE shape)': 'correspondence (Model/OverhangByC.v, units 250-252) + implementation-side clauses'}
 RULE = ('corpus; second-vote dictionaries over 2..6 parties, house 1..40, direct-seat maps with sum <= house (parties outside the tier, '
         'parties without votes, zero entries), proportional evaluator in {D\'Hondt, Sainte-Lague, Hare largest remainder}; AllowOverhang and '
         'LevelOverhang inside AdjustedSeatCount, also wrapped in MultistageDistributor with a first-stage fixed result (NZ/DE shape). '
@@ -23,10 +24,19 @@ RULE = ('corpus; second-vote dictionaries over 2..6 parties, house 1..40, direct
         'grows by exactly the adjustment. Stream by-constituency: LevelOverhangByConstituency alone, and inside AdjustedSeatCount(.., ByParty) '
         'in a depth-2 MultistageDistributor (DE shape), on fresh objects and on objects reused for 2..4 elections, against an independent '
         'search (minimum of a tier party = sum over constituencies of max(direct, proportional)). '
+        'Streams byc-corpus / byc-model / byc-boundary: the extracted by-constituency model against LevelOverhangByConstituency.calculate, '
+        'against MultistageDistributor([first round seats, AdjustedSeatCount(calculator, ByParty)], depth=2) and against ByConstituency.evaluate: '
+        '1..3 constituencies with 0..7 seats, 2..4 parties (+ an independent with first round seats only, + first round seats in a constituency '
+        'without votes), D\'Hondt / Sainte-Lague (possibly different for constituency evaluator, overall evaluator, ByParty, allocator), apportioner '
+        'dictionary or evaluator, overall evaluator given or None, loop bound 0..80 compared exactly through a counting proxy, a quarter of the '
+        'elections on objects that answered 1..2 elections before; boundary kinds: first round seats without votes, second round parties, Tie in a '
+        'constituency, Ties in all constituencies alike, constituencies without seats, parties outside the tier using up the house. '
         'non-trivial = overhang present or a party outside the tier; distinct by case hash')
-PARTIAL = ['LevelOverhangByConstituency: no model; judged on the implementation side against an independent search (adjustment; in the DE '
-           'shape: no direct seat lost, party totals = proportional distribution of the enlarged house when all direct seats belong to tier '
-           'parties); elections with a tie inside the inner evaluator are not judged (the levelling loop does not end on a Tie)']
+PARTIAL = ['LevelOverhangByConstituency: modelled and proved over arbitrary evaluators (C15_byc_*); no termination bound for its loop (refuted '
+           'with a Tie key: C15_byc_terminates_refuted; otherwise out-of-fuel is excluded by hypothesis); max_seats not modelled; with parties '
+           'outside the tier holding first round seats no theorem links the tested house n - drop + adj to the distributed house n + adj; '
+           '"party totals = proportional distribution of the enlarged house" of the ByParty stage is judged on the implementation side only; '
+           'the implementation-side by-constituency stream does not judge elections with a tie inside the inner evaluator (the model streams do)']
 TRUSTED = []
 DIV = {1: 'd_hondt', 2: 'sainte_lague'}
 
@@ -626,9 +636,15 @@ def byc_reference(c):
     return None
 
 
+BYC_OUTCOMES = {}
+
+
 def byc_spec(c, io, mo):
     """declarative clauses on the implementation's answer"""
     v = common.parse_sx(io)
+    cm = byc_canon(c, mo)
+    key = 'byc-outcome:%s:%s' % (c['unit'], cm[0] if cm[0] == 'ok' and c['unit'] != 'byc-asc' else '/'.join(map(str, (cm[0], cm[2][0]) if cm[0] == 'ok' else cm)))
+    BYC_OUTCOMES[key] = BYC_OUTCOMES.get(key, 0) + 1
     if c['unit'] == 'byc-cev':
         return None
     if v[0] != 0:
@@ -751,7 +767,7 @@ def gen_byc(rng, count, dist=None, boundary=False):
         cfg = dict(dc=dc, app=['dict', seats] if rng.random() < 0.8 else ['eval'],
                    ov=['given', dc if same else rng.choice([1, 2])] if rng.random() < 0.85 else ['default'],
                    dn=dc if same else rng.choice([1, 2]), da=dc if same else rng.choice([1, 2]),
-                   fuel=rng.choice([0, 1, 3, 40, 80, 80, 80, 80]))
+                   fuel=rng.choice([0, 2, 60, 80, 80, 80, 80, 80]))
         unit = rng.choice(['byc', 'byc', 'byc-asc', 'byc-asc', 'byc-asc', 'byc-cev'])
         history = []
         if unit != 'byc-cev' and rng.random() < 0.25:
@@ -788,6 +804,8 @@ def explore(ctx, widen=1):
     ctx.differential('byc-corpus', corpus(model=True), byc_model_line, byc_impl, **kb)
     ctx.differential('byc-model', gen_byc(ctx.rng, ctx.n(2500, 40000) * widen, ctx.dist), byc_model_line, byc_impl, **kb)
     ctx.differential('byc-boundary', gen_byc(ctx.rng, ctx.n(2500, 40000) * widen, ctx.dist, boundary=True), byc_model_line, byc_impl, **kb)
+    for k, v in BYC_OUTCOMES.items():
+        ctx.dist[k] += v
 
 
 def replay(ctx, case, stream=None):
